@@ -142,6 +142,22 @@ CLAIMED = {
                 "through order-revealing edits; it is not a Lean theorem (the model covers which hooks run, in which order).",
         "technique": "Lean 4 proof (list invariants over every plugin list, generated call-site tables) + differential correspondence",
     },
+    "C20": {
+        "text": "Lean theorems over the GENERATED table of parser construction sites (every function under suds/ that "
+                "calls make_parser / ParserCreate / ... with the features it sets) and of modules importing another "
+                "XML library: every site switches feature_external_ges off explicitly, there is no other XML "
+                "library in use, and for every stream of external references a parser built at such a site takes no "
+                "'resolve' action. Partial by nature: expat and xml.sax.expatreader are C/stdlib and trusted. The "
+                "harness parses documents combining internal subsets with external general/parameter entities, "
+                "external subsets, PUBLIC ids, nested and unparsed entities and XInclude look-alikes (file://, path, "
+                "http://, ftp://, relative ids) as replies (inject, transport, RequestContext), WSDLs, imported "
+                "schemas, cached documents and through Parser.parse, under sys.addaudithook: any open / socket / "
+                "urllib event outside the cache directory, or planted marker content in the result, is a violation.",
+        "design_ref": "DESIGN.md section 6 C20",
+        "note": "the theorem is about suds' configuration and funnel only; a removed (rather than inverted) feature "
+                "line changes no behaviour on Python >= 3.7.1 and is reported as no-failing-input-found.",
+        "technique": "Lean 4 proof over a translator-generated configuration table + audit-hook fault search",
+    },
 }
 
 NOT_YET = "check not built yet in this round (design in DESIGN.md section 6); not claimed"
